@@ -120,7 +120,7 @@ theorem faceId?_eq (h : WF s) {q} (hq : q ∈ s.simplices) {face : List Atom} (e
     simp [hs] at this
   | some p' =>
     have hp' := List.mem_of_find?_eq_some hfind
-    have hs' : sameSet p'.2 face = true := List.find?_some (p := fun p => sameSet p.2 face) hfind
+    have hs' : sameSet p'.2 face = true := List.find?_some (p := fun (p : PyId × List Atom) => sameSet p.2 face) hfind
     have h2 : ss p' = face := (sameSet_iff (h.memNodup p' hp') hf sf).mp hs'
     have : p' = q := ss_inj h hp' hq (h2.trans e.symm)
     simp [this]
@@ -158,7 +158,8 @@ theorem boundary_e (o : PyId → Nat) (n : Nat) {i j : Nat} (hi : i < (downIds s
     (hj : j < (s.ofOrder ((n + 1 : Nat) : Int)).length) :
     (boundary s (n + 1) o).e i j = colFn (writes s (n + 1) o (downIds s (n + 1)) (s.ofOrder ((n + 1 : Nat) : Int))[j]) i := by
   have h1 : (downIds s (n + 1)).length ≠ 0 := by omega
-  have h2 : (upIds s (n + 1)).length ≠ 0 := by simp [upIds]; omega
+  have h2 : (upIds s (n + 1)).length ≠ 0 := by
+    unfold upIds; rw [if_neg (by omega), List.length_map]; omega
   simp only [boundary, h1, h2, false_or, Nat.add_eq_zero_iff, Nat.succ_ne_zero, and_false, if_false,
     List.getElem?_eq_getElem hj]
 
@@ -182,7 +183,7 @@ theorem gen_write (h : WF s) (o : PyId → Nat) (n : Nat) {p : PyId × List Atom
   simp only [hlen', List.map_map, List.getElem?_map, List.getElem?_range (show c < n + 3 by omega),
     Option.map_some, Function.comp]
   rw [show n + 3 - 1 - c = n + 2 - c by omega, faceId?_eq h hq e]
-  simp [hidx]
+  simp only [Option.bind_some, hidx, Option.map_some]
 
 theorem gen_write_length (n : Nat) (o : PyId → Nat) (rows : List PyId) (u : PyId) {cs : List Atom} (hl : cs.length = n + 3) :
     (writesGen s (n + 2) o rows u cs).length = n + 3 := by
